@@ -98,6 +98,25 @@ def mk_scn(rng: random.Random, cls: str) -> dict:
     return scn
 
 
+def _zero_delay_depth(scn: dict, sid: str) -> int:
+    """Length of the longest chain of non-shifted predecessors ending in sid (0 = no predecessor)."""
+    preds: Dict[str, set] = {}
+    for c in scn["conns"]:
+        if c["src"] != c["dst"] and not c.get("shift"):
+            preds.setdefault(c["dst"], set()).add(c["src"])
+    memo: Dict[str, int] = {}
+
+    def depth(x, seen=()):
+        if x in memo:
+            return memo[x]
+        if x in seen:
+            return 0
+        r = max((1 + depth(p, seen + (x,)) for p in preds.get(x, ())), default=0)
+        memo[x] = r
+        return r
+    return depth(sid)
+
+
 def judge(scn: dict, tr: dict) -> List[dict]:
     out: List[dict] = []
     cfg = scn["config"]
@@ -128,9 +147,25 @@ def judge(scn: dict, tr: dict) -> List[dict]:
                 who = prev[-1]["sid"] if prev else None
             has_pred = who is not None and any(c["dst"] == who and c["src"] != who and not c.get("shift")
                                                for c in scn["conns"])
+            # every report: which simulator, how late, and how long its chain of zero-delay predecessors is
+            # (the known mechanism delays a simulator by at most one slot per predecessor in that chain)
+            worst_excess = 0.0
+            all_have_pred = True
+            import re as _re
+            for lg in too_slow_logs:
+                prev = [e for e in tr["events"][:lg["i"]] if e.get("op") == "ret" and e.get("kind") == "step"]
+                w2 = prev[-1]["sid"] if prev else None
+                mt = _re.search(r"- ([0-9.eE+-]+)s behind time", lg["msg"])
+                delta = float(mt.group(1)) if mt else float("inf")
+                d = _zero_delay_depth(scn, w2) if w2 else 0
+                if d == 0:
+                    all_have_pred = False
+                worst_excess = max(worst_excess, delta - d * f)
             out.append({"kind": "too_slow_reported_with_instant_simulators", "reports": len(too_slow_logs),
                         "first": first["msg"][:120], "reported_simulator": who,
-                        "reported_simulator_has_zero_delay_predecessor": has_pred, "strict": strict})
+                        "reported_simulator_has_zero_delay_predecessor": has_pred and all_have_pred,
+                        "lateness_beyond_one_slot_per_predecessor": round(worst_excess, 9) if too_slow_logs else None,
+                        "strict": strict})
     # (d) a step longer than a whole slot must be reported
     if scn["cls"] == "slow":
         long_steps = [(s["sid"], t, d) for s in scn["sims"] for t, d in (s["beh"].get("dur") or {}).items() if d > f]
